@@ -21,9 +21,9 @@ FREE_KEYS = {
     "ipaddr-or-hostname": ["kx", "Ky", "kz-1", "k.w", "10.1.2.3", "alpha", "n1"],
 }
 BAD_KEYS = {
-    "basic-key": ["1x", "_y", "a/b"],
-    "identifier": ["1x", "a-b", "a.b"],
-    "ipaddr-or-hostname": ["1x", "300.1.1.1", "a/b", "x!"],
+    "basic-key": ["1x", "_y", "a/b", "+", "*"],
+    "identifier": ["1x", "a-b", "a.b", "+", "*"],
+    "ipaddr-or-hostname": ["1x", "300.1.1.1", "a/b", "x!", "+", "*"],
 }
 SECTION_NAMES = ["n1", "n2", "N3", "alpha", "Beta", "Stra\u00dfe", "\u039f\u0394\u039f\u03a3"]
 
@@ -54,6 +54,21 @@ BAD = {
     "inet-address": ["host:99999", "host:x", "a b"],
     "zcv.dt.evenint": ["3", "x"],
 }
+# values that can only be written as the text of a <default> element (characters that the XML
+# renderer turns into entity references, with blanks between them; line breaks inside the text)
+DEFAULT_ONLY = {
+    "string": ["< >", "a && b", "p\nq", "x\t<y>", "&amp; &lt;", "<\n>"],
+    "null": ["< >", "l1\nl2"],
+    "string-list": ["alpha\nbeta", "a\n\nb c", "<a> <b>", "& &"],
+}
+
+
+def default_value(rng, dt):
+    if dt in DEFAULT_ONLY and rng.random() < 0.3:
+        return rng.choice(DEFAULT_ONLY[dt])
+    return rng.choice(GOOD[dt])
+
+
 KEY_DATATYPES = ["string", "string", "integer", "boolean", "float", "port-number", "byte-size",
                  "time-interval", "identifier", "basic-key", "string-list", "inet-address",
                  "null", "integer"]
@@ -270,7 +285,7 @@ def gen_items(rng, kt, names, attrs, avail_types, n, handlers, hcount, value_dts
                         continue
                     seen.add(k.lower())
                     for _j in range(rng.choice([1, 1, 2]) if it["kind"] == "multikey" else 1):
-                        d.append([k, rng.choice(GOOD[it["datatype"]])])
+                        d.append([k, default_value(rng, it["datatype"])])
                 it["defaults"] = d
             items.append(it)
             continue
@@ -283,12 +298,12 @@ def gen_items(rng, kt, names, attrs, avail_types, n, handlers, hcount, value_dts
             _attr_for(rng, it, attrs)
             if kind == "key":
                 if not it["required"] and rng.random() < 0.5:
-                    it["default"] = rng.choice(GOOD[it["datatype"]])
+                    it["default"] = default_value(rng, it["datatype"])
                     if it["datatype"] in ("string", "string-list", "null") and rng.random() < 0.25:
                         it["default"] = ""
             else:
                 if not it["required"] or allow_required_defaults:
-                    it["defaults"] = [rng.choice(GOOD[it["datatype"]])
+                    it["defaults"] = [default_value(rng, it["datatype"])
                                       for _j in range(rng.choice([0, 0, 1, 2]))]
             items.append(it)
             continue
